@@ -46,10 +46,13 @@ impl<SlotType: Copy+Debug, const BUFFER_SIZE: usize, const METRICS: bool, const 
     fn push(&self, element: SlotType) -> bool {
         let mutable_self = unsafe { &mut *(*(self as *const Self as *const std::cell::UnsafeCell<Self>)).get() };
         loop {
+            vp!("st.swap");
             let in_use = self.flag.swap(true, Ordering::Acquire);
             if !in_use {
+                vp!("st.crit");
                 if self.head >= BUFFER_SIZE as u32 {
                     // stack is full
+                    vp!("st.unlock");
                     self.flag.store(false, Ordering::Relaxed);
                     if METRICS {
                         self.push_full_count.fetch_add(1, Ordering::Relaxed);
@@ -58,6 +61,7 @@ impl<SlotType: Copy+Debug, const BUFFER_SIZE: usize, const METRICS: bool, const 
                 }
                 mutable_self.buffer[self.head as usize] = element;
                 mutable_self.head += 1;
+                vp!("st.unlock");
                 self.flag.store(false, Ordering::Release);
                 if METRICS {
                     self.push_count.fetch_add(1, Ordering::Relaxed);
@@ -78,10 +82,13 @@ impl<SlotType: Copy+Debug, const BUFFER_SIZE: usize, const METRICS: bool, const 
     fn pop(&self) -> Option<SlotType> {
         let mutable_self = unsafe { &mut *(*(self as *const Self as *const std::cell::UnsafeCell<Self>)).get() };
         loop {
+            vp!("st.swap");
             let in_use = self.flag.swap(true, Ordering::Acquire);
             if !in_use {
+                vp!("st.crit");
                 if self.head == 0 {
                     // empty stack
+                    vp!("st.unlock");
                     self.flag.store(false, Ordering::Relaxed);
                     if METRICS {
                         self.pop_empty_count.fetch_add(1, Ordering::Relaxed);
@@ -90,6 +97,7 @@ impl<SlotType: Copy+Debug, const BUFFER_SIZE: usize, const METRICS: bool, const 
                 }
                 mutable_self.head -= 1;
                 let element = self.buffer[self.head as usize];
+                vp!("st.unlock");
                 self.flag.store(false, Ordering::Release);
                 if METRICS {
                     self.pop_count.fetch_add(1, Ordering::Relaxed);
